@@ -81,6 +81,10 @@ impl World {
         self.r.blockchain_mock.state.accounts.get_mut(a).unwrap().esdt
             .increase_balance(token.to_vec(), 0, &BigUint::from(amount), Default::default());
     }
+    pub fn add_sft(&mut self, a: &VMAddress, token: &[u8], nonce: u64, amount: u64) {
+        self.r.blockchain_mock.state.accounts.get_mut(a).unwrap().esdt
+            .increase_balance(token.to_vec(), nonce, &BigUint::from(amount), Default::default());
+    }
     pub fn set_time(&mut self, t: u64) { self.r.blockchain_mock.state.current_block_info.block_timestamp = t; }
     pub fn time(&self) -> u64 { self.r.blockchain_mock.state.current_block_info.block_timestamp }
 
@@ -93,6 +97,9 @@ impl World {
                 bal.insert(b"EGLD".to_vec(), acc.egld_balance.clone());
                 for (tok, data) in acc.esdt.iter() {
                     bal.insert(tok.clone(), data.instances.get_by_nonce_or_default(0).balance.clone());
+                    // NFT / SFT / meta-ESDT instances: identifier # nonce (8 bytes big endian)
+                    for (nonce, inst) in data.instances.get_instances().iter() { if *nonce != 0 {
+                        let mut k = tok.clone(); k.push(b'#'); k.extend_from_slice(&nonce.to_be_bytes()); bal.insert(k, inst.balance.clone()); } }
                 }
                 s.insert(a.as_bytes().to_vec(), (st, bal));
             }
